@@ -24,6 +24,9 @@ pub enum Step {
     Reoffer(u16),
     /// drop and reopen the store (file stores)
     Reopen,
+    /// an operation on another part of the store (another document, settings, authors, flush, committing reads,
+    /// requests that fail inside the store): must not change anything this document shows
+    Noise(Noise),
 }
 
 #[derive(Serialize, Deserialize, Clone, Debug)]
@@ -58,6 +61,7 @@ fn step() -> impl Strategy<Value = Step> {
         5 => egen().prop_map(Step::Remote),
         1 => any::<u16>().prop_map(Step::Reoffer),
         1 => Just(Step::Reopen),
+        2 => crate::gen::noise().prop_map(Step::Noise),
     ]
 }
 
@@ -138,6 +142,7 @@ fn check_history(ctx: &mut Ctx, h: &History) -> Outcome {
         st.store.close_replica(ns);
         let mut model = Model::default();
         let mut offered: Vec<SignedEntry> = vec![];
+        let mut noise_state = NoiseState::default();
         verif::set_clock(Some(T0 + 3));
         for (i, s) in h.steps.iter().enumerate() {
             // what is offered, and through which path
@@ -161,6 +166,24 @@ fn check_history(ctx: &mut Ctx, h: &History) -> Outcome {
                         continue;
                     }
                     (offered[idx(*j, offered.len())].clone(), Path::Remote)
+                }
+                Step::Noise(nz) => {
+                    if ns == noise_namespace().id() {
+                        continue;
+                    }
+                    if let Err(e) = apply_noise(&ctx.rt, &mut st.store, nz, &mut noise_state) {
+                        o.fail("C02/noise", format!("step {i} {:?}: {e}", nz));
+                        break;
+                    }
+                    o.class("history/noise-on-other-parts-of-the-store");
+                    if !h.sparse_observe {
+                        let d = dump(&mut st.store, ns)?;
+                        if d != model.dump() {
+                            o.fail("C02/noise-changed-the-document", format!("step {i} {:?}: store {} model {}", nz, describe_all(&d), describe_all(&model.dump())));
+                            break;
+                        }
+                    }
+                    continue;
                 }
                 Step::Reopen => {
                     st = st.reopen()?;
